@@ -266,3 +266,70 @@ pub fn atomic_asts() -> Vec<OpeningHoursExpression> {
 
 type ExtendedTimeAlias = opening_hours_syntax::ExtendedTime;
 use opening_hours_syntax::ExtendedTime;
+
+/// Combination grid for normalization: pairs of rules, each restricting at most two of the five
+/// dimensions (year, month, week, weekday, time) to a plain or wrapping range, joined by each of the
+/// three separators with each kind; and triples of rules cutting ONE dimension at many points.
+/// `part` rotates thirds of the pairs in the quick tier.
+pub fn normalize_grid(all: bool, part: u64) -> Vec<String> {
+    let dims: [&[&str]; 5] = [
+        &["2020-2024", "2022-2030", "2024", "1900-2021"],
+        &["Jan-Mar", "Mar-Jun", "Nov-Feb", "Dec", "Jun"],
+        &["week 01-10", "week 10-20", "week 50-03", "week 53"],
+        &["Mo-We", "We-Fr", "Fr-Mo", "Sa-Su", "Tu"],
+        &["00:00-12:00", "12:00-24:00", "10:00-14:00", "22:00-02:00", "00:00-24:00"],
+    ];
+    // shapes: at most two restricted dimensions
+    let mut shapes: Vec<String> = vec!["24/7".to_string()];
+    for (i, di) in dims.iter().enumerate() {
+        for a in di.iter() {
+            shapes.push(a.to_string());
+            for (j, dj) in dims.iter().enumerate().skip(i + 1) {
+                for b in dj.iter() {
+                    // the grammar wants a month directly after a year
+                    shapes.push(if i == 0 && j == 1 { format!("{a}{b}") } else { format!("{a} {b}") });
+                }
+            }
+        }
+    }
+    let seps = [" ; ", ", ", " || "];
+    let kinds = ["", " off", " unknown"];
+    let mut v = Vec::new();
+    let mut pair = 0u64;
+    for a in &shapes {
+        for b in &shapes {
+            pair += 1;
+            for (si, sep) in seps.iter().enumerate() {
+                for (ki, kind) in kinds.iter().enumerate() {
+                    // quick: each (a, b) with three of the nine separator x kind combinations, rotating
+                    if all || (pair + (si * 3 + ki) as u64) % 3 == part % 3 {
+                        v.push(format!("{a}{sep}{b}{kind}"));
+                    }
+                }
+            }
+        }
+    }
+    // triples along one dimension, more cut points
+    let fine: [&[&str]; 5] = [
+        &["2019-2021", "2020-2024", "2021", "2022-2030", "2024-2026", "2025", "1900-2022", "2023-9999"],
+        &["Jan-Mar", "Feb-Apr", "Mar-Jun", "Jun", "May-Sep", "Sep-Dec", "Nov-Feb", "Dec-Jan"],
+        &["week 01-10", "week 05-15", "week 10-20", "week 15", "week 20-40", "week 40-53", "week 50-03", "week 53-01"],
+        &["Mo-We", "Tu-Th", "We-Fr", "Fr", "Fr-Mo", "Sa-Su", "Su-Tu", "Th-Sa"],
+        &["00:00-12:00", "06:00-10:00", "10:00-14:00", "12:00-24:00", "13:00-13:30", "18:00-26:00", "22:00-02:00", "23:00-24:00"],
+    ];
+    for d in fine.iter() {
+        for (i, a) in d.iter().enumerate() {
+            for (j, b) in d.iter().enumerate() {
+                for (l, c) in d.iter().enumerate() {
+                    if !all && (i + 2 * j + 3 * l) as u64 % 3 != part % 3 {
+                        continue;
+                    }
+                    let s1 = seps[(i + j) % 3];
+                    let s2 = seps[(j + l + 1) % 3];
+                    v.push(format!("{a}{s1}{b}{}{s2}{c}{}", kinds[(i + l) % 3], kinds[(j + 2 * l) % 3]));
+                }
+            }
+        }
+    }
+    v
+}
